@@ -140,7 +140,7 @@ func genGW(seed uint64, tier string, prop string) Case {
 			}
 			c.Ops = append(c.Ops, Op{K: "inc", A: []int64{sw, key(), by, cond, int64(r.intn(5)) - 2, int64(r.intn(4)), ti}})
 		case 10:
-			c.Ops = append(c.Ops, Op{K: "spush", A: []int64{sw, key(), int64(1 + r.intn(4))}})
+			c.Ops = append(c.Ops, Op{K: "spush", A: []int64{sw, key(), int64(1 + r.intn(6))}})
 		case 11:
 			c.Ops = append(c.Ops, Op{K: "sdel", A: []int64{sw, key(), int64(1 + r.intn(4))}})
 		case 12:
@@ -807,7 +807,8 @@ func (g *gwRun) step(i int, op Op) *Result {
 		if old != nil && old.Kind != "slice" {
 			return nil // pushing onto another type is not generated
 		}
-		vals := genValue("slice", op.A[2]).Slice
+		// the pushed list as a client may send it: a value can be named more than once (the set keeps it once)
+		vals := [][]uint32{{}, {0}, {1, 2, 3}, {7, 7, 9}, {4294967295}, {5, 5}, {2, 8, 2, 8}}[int(op.A[2])%7]
 		err := cl.slicePush(sw, key, vals)
 		if cl.hung != "" {
 			return nil
